@@ -40,7 +40,21 @@ RULE = ("cases drawn by seeded sampling over group {tableau, errw, order, accura
         "degenerate} x method {euler, rk4, rk38, rk23, rk45} x ODE family x grid kind x direction x tolerance setting x state layout; "
         "non-trivial = the right-hand side was called at least (stages x intervals) times, the call history was replayed completely by the "
         "lockstep model, and the deciding comparison of the group was evaluated on a non-constant solution")
-MIN_NONTRIVIAL = {"quick": 1200, "thorough": 12000}
+MIN_NONTRIVIAL = {"quick": 1000, "thorough": 10000}
+REQUIRED_COUNTERS = {
+    "quick": {"tableaus_identified": 120, "error_weight_sets_identified": 60, "histories_replayed": 3000, "replayed_euler": 250,
+              "replayed_rk4": 250, "replayed_rk38": 250, "replayed_rk23": 800, "replayed_rk45": 1000, "steps_rejected": 500,
+              "steps_zero_length": 800, "threshold_probes": 600, "rejections_probed": 300, "controller_probes": 600,
+              "order_conditions_evaluated": 1500, "order_tests": 150, "accuracy_compared": 250, "accuracy_resolved_steps": 100,
+              "metamorphic_compared": 450, "tuple_state_cases": 150, "degenerate_grids": 40, "y0_bitwise_checked": 3000,
+              "default_method_calls": 5},
+    "thorough": {"tableaus_identified": 1200, "error_weight_sets_identified": 600, "histories_replayed": 30000, "replayed_euler": 2500,
+                 "replayed_rk4": 2500, "replayed_rk38": 2500, "replayed_rk23": 8000, "replayed_rk45": 10000, "steps_rejected": 5000,
+                 "steps_zero_length": 8000, "threshold_probes": 6000, "rejections_probed": 3000, "controller_probes": 6000,
+                 "order_conditions_evaluated": 15000, "order_tests": 1500, "accuracy_compared": 2500, "accuracy_resolved_steps": 1000,
+                 "metamorphic_compared": 4500, "tuple_state_cases": 1500, "degenerate_grids": 40, "y0_bitwise_checked": 30000,
+                 "default_method_calls": 50},
+}
 ASSUMPTIONS = [
     "ts strictly monotone, 2 <= nt <= 9 (plus the directed degenerate grids: one point, repeated points), |t| <= 12, total span <= 10",
     "state size <= 24 (batched, matrix-shaped and tuple states), float64 (float32 only in the scripted tableau group)",
@@ -199,7 +213,6 @@ class Spy:
         self.budget = budget
         self.arg_kinds = set()
         self.t_kinds = set()
-        self.grad_modes = set()
 
     def fcn(self):
         spy = self
@@ -274,7 +287,7 @@ def _ref_t(method):
     return R
 
 
-def _stage_check(R, t0, h, y0, Kmat, tobs, yobs, eps, tmag=0.0):
+def _stage_check(R, t0, h, y0, Kmat, tobs, yobs, eps, tmag=0.0, dh=0.0):
     """stage times/states and step result predicted by the reference tableau vs the recorded ones, in units of eps*magnitude.
     Kmat: (s+1, N) slopes K_0..K_s (the last row is not used), tobs: (s,) times of stages 2..s and of the end of the step,
     yobs: (s, N) arguments of stages 2..s and the new state.  Returns (rt, ry, rb)."""
@@ -286,6 +299,9 @@ def _stage_check(R, t0, h, y0, Kmat, tobs, yobs, eps, tmag=0.0):
     pred = y0.double().unsqueeze(0) + h * torch.matmul(Aext, Kd)
     mag = _inf(y0) + abs(h) * torch.matmul(Aext.abs(), Kd.abs().amax(dim=1) if Kd.shape[1] else torch.zeros(s + 1, dtype=torch.float64))
     dev = (yobs.double() - pred).abs().amax(dim=1) if Kd.shape[1] else torch.zeros(s, dtype=torch.float64)
+    if dh:
+        # h is only known as (end of step) - (start of step), i.e. up to the rounding dh of the recorded times
+        dev = torch.clamp(dev - dh * torch.matmul(Aext.abs(), Kd.abs().amax(dim=1)), min=0.0)
     r = dev / (eps * mag + 1e-300)
     ry = float(r[:-1].max()) if s > 1 else 0.0
     rb = float(r[-1])
@@ -345,6 +361,7 @@ def replay_adaptive(method, log, ts, y0f, ytf, atol, rtol, obs, key, eps):
     tau = [sig * x for x in tl]
     nt = len(tl)
     tmag = max(abs(x) for x in tl)
+    eps_t = torch.finfo(ts.dtype).eps
     if not obs.check(len(log) >= 1 + s and (len(log) - 1) % s == 0, "calls:%s" % key,
                      "%d right-hand-side calls: not 1 + k*%d (initial slope + %d evaluations per attempted step)" % (len(log), s, s)):
         return rp
@@ -373,7 +390,7 @@ def replay_adaptive(method, log, ts, y0f, ytf, atol, rtol, obs, key, eps):
             h = t_last - t0c
             Kmat = torch.cat([K0c.unsqueeze(0), kap])
             if finite and fin0 and bool(torch.isfinite(K0c).all()):
-                rt, ry, rb = _stage_check(R, t0c, h, y0c, Kmat, tobs, yobs, eps, tmag)
+                rt, ry, rb = _stage_check(R, t0c, h, y0c, Kmat, tobs, yobs, eps, tmag, dh=4 * eps_t * (abs(t0c) + abs(t_last)))
             else:
                 tp = t0c + R["c_t"] * h
                 rt = float(((tobs - tp).abs() / (eps * (abs(t0c) + abs(h) + tmag) + 1e-300)).max())
@@ -507,9 +524,14 @@ def basic_checks(obs, key, yt, ts, y0):
     return True
 
 
-def solve_and_replay(obs, key, method, rule, ts, y0, params=(), opts=None, budget=CALL_BUDGET):
-    """real call + basic checks + lockstep replay; returns (yt, flattened yt, Replay, spy) or None"""
-    spy, yt = run_solver(obs, key, rule, ts, y0, method, params, opts, budget)
+def solve_and_replay(obs, key, method, rule, ts, y0, params=(), opts=None, budget=CALL_BUDGET, via_default=False):
+    """real call + basic checks + lockstep replay; returns (yt, flattened yt, Replay, spy) or None.
+    via_default: pass method=None (documented default = rk45) instead of the name"""
+    if via_default:
+        if method != "rk45":
+            raise HarnessBug("the default method is rk45")
+        obs.count("default_method_calls")
+    spy, yt = run_solver(obs, key, rule, ts, y0, None if via_default else method, params, opts, budget)
     if yt is None:
         return None
     if not basic_checks(obs, key, yt, ts, y0):
@@ -611,14 +633,17 @@ def make_family(name, rng, tgen, t0, span, layout="tensor", big=False):
         f.L = float(a.abs().max()) * tm
         f.exact = lambda t: (y0 * torch.exp(-a * ((t + sh) ** 2 - (t0 + sh) ** 2) / 2)).reshape(-1)
     elif name == "bernoulli":
-        # y_i' = q y_i^2 cos(t + s_i), y = 1/(1/y0 - q (sin(t+s) - sin(t0+s))); 1/y0 >= 3.3, q<=1 keeps y <= 0.77
-        q = min(1.0, lmax / 1.6)
-        sh = 6.3 * rnd(*shape)
+        # y_i' = q y_i^2 cos(w (t + s_i)), y = 1/(1/y0 - (q/w) (sin w(t+s) - sin w(t0+s))); 1/y0 >= 3.3 and q <= w keep y <= 0.77.
+        # w <= 2.5/span: the forcing does not complete an oscillation inside the longest possible first step (the initial step guess
+        # is the whole first interval, and no embedded estimate can see an oscillation that fits inside one step)
+        w = min(1.0, 2.5 / max(span, 1e-9))
+        q = min(w, lmax / 1.6)
+        sh = 6.3 / w * rnd(*shape)
         y0 = 0.1 + 0.2 * rnd(*shape)
-        f.fcn = lambda t, y: q * y * y * torch.cos(t + sh)
+        f.fcn = lambda t, y: q * y * y * torch.cos(w * (t + sh))
         f.y0 = y0
         f.L = 1.6 * q
-        f.exact = lambda t: (1.0 / (1.0 / y0 - q * (torch.sin(t + sh) - torch.sin(t0 + sh)))).reshape(-1)
+        f.exact = lambda t: (1.0 / (1.0 / y0 - (q / w) * (torch.sin(w * (t + sh)) - torch.sin(w * (t0 + sh))))).reshape(-1)
     elif name in ("harmonic", "damped"):
         shp = rng.choice([(1,), (3,), (2, 2)])
         wmax = max(min(math.sqrt(lmax) if lmax > 1 else lmax, 2.0), 1e-3)
@@ -774,7 +799,7 @@ def cases(seed, tier):
                 if m == "rk23" and tol in ("tight", "vtight"):
                     tol = "default"
                 add("accuracy", n, method=m, family=fam, grid=rng.choice(GRIDS), dir=rng.choice(["inc", "dec"]), tol=tol,
-                    layout=rng.choice(["tensor", "tuple", "list"]))
+                    layout=rng.choice(["tensor", "tuple", "list"]), via_default=bool(m == "rk45" and rng.random() < 0.25))
                 n += 1
     # 5. accuracy/refinement of the fixed-step methods
     n = 0
@@ -874,7 +899,8 @@ def run_tableau(desc, obs):
         obs.nontrivial = True
         return
     # ---- read the coefficients off the first step of each interval
-    tol = 1e-13 if var == "exact" else (1e-10 if var != "f32" else 2e-5)
+    # largest deviation seen on the unchanged tree: 1.8e-15 (exact), 6.4e-15 (generic, tuple), 7.7e-7 (float32)
+    tol = 1e-12 if var == "exact" else (1e-10 if var != "f32" else 1e-4)
     log = spy.log
     worst = 0.0
     ident = None
@@ -951,7 +977,7 @@ def run_tableau(desc, obs):
     cc, AA, bb = ident
     rs = order_residuals(AA, bb, R["order"])
     rowsum = max(abs(sum(AA[i]) - cc[i]) for i in range(s))
-    otol = 1e-12 if var == "exact" else (1e-9 if var != "f32" else 1e-4)
+    otol = 1e-12 if var == "exact" else (1e-9 if var != "f32" else 2e-4)    # seen: 1.8e-15 / 1.1e-14 / 1.1e-6
     wr = max(max(rs.values()), rowsum)
     _track(obs, "max_order_condition_residual_%s" % var, wr)
     obs.count("order_conditions_evaluated", sum(len(_TREES[o]) for o in range(1, R["order"] + 1)))
@@ -1133,7 +1159,7 @@ def _tol(tol):
     return TOLS[tol]
 
 
-def _solve_family(obs, key, m, fam, pts, tol=None, budget=CALL_BUDGET):
+def _solve_family(obs, key, m, fam, pts, tol=None, budget=CALL_BUDGET, via_default=False):
     ts = torch.tensor(pts, dtype=torch.float64)
     opts = {}
     tl = _tol(tol)
@@ -1142,7 +1168,7 @@ def _solve_family(obs, key, m, fam, pts, tol=None, budget=CALL_BUDGET):
 
     def rule(idx, t, y, *p):
         return fam.fcn(t, y, *p)
-    return solve_and_replay(obs, key, m, rule, ts, fam.y0, params=fam.params, opts=opts, budget=budget)
+    return solve_and_replay(obs, key, m, rule, ts, fam.y0, params=fam.params, opts=opts, budget=budget, via_default=via_default)
 
 
 def _errors(fam, pts, ytf):
@@ -1158,7 +1184,7 @@ def _errors(fam, pts, ytf):
 # observed-order margins: smallest local order seen on the unchanged tree over 2000 draws per family: p+1-0.10 (rk23, rk4, rk38),
 # p+1-0.01 (euler), p+1-0.74 (rk45: Dormand-Prince minimises the principal error term, so the next term shows at usable step sizes)
 ORDER_MARGIN = {"euler": 0.3, "rk4": 0.4, "rk38": 0.4, "rk23": 0.4, "rk45": 1.0}
-GLOBAL_ORDER_MARGIN = 0.9
+GLOBAL_ORDER_MARGIN = 1.2
 
 
 def run_order(desc, obs):
@@ -1209,8 +1235,22 @@ def run_order(desc, obs):
     obs.nontrivial = True
 
 
-K_ACC = {"rk23": 300.0, "rk45": 300.0}     # calibrated below (see ASSUMPTIONS); placeholder values are replaced after calibration
-K_FIX = {"euler": 40.0, "rk4": 1.0, "rk38": 1.0}
+# Calibration (unchanged tree, VERIF_SEED 0..3 thorough, 8400 adaptive / 5000 fixed-step accuracy cases): largest
+# err / ((atol+rtol*|y|)(1+LT)sqrt(steps)) seen = 1.14 (rk23) / 0.39 (rk45) when every accepted step has h*L <= 0.5, and 13.9 / 0.48
+# when a coarser step was accepted (the initial step guess is the whole first interval: on a coarse grid the embedded estimate of
+# such a step can be accidentally small); largest err / (|y| (L h)^p LT e^LT) = 0.31 (euler) / 0.005 (rk4) / 0.0043 (rk38).
+K_ACC = {"rk23": 120.0, "rk45": 40.0}
+K_ACC_COARSE = {"rk23": 1400.0, "rk45": 50.0}
+HL_RESOLVED = 0.5
+K_FIX = {"euler": 40.0, "rk4": 0.6, "rk38": 0.6}
+
+
+def k_acc(m, hL):
+    return K_ACC[m] if hL <= HL_RESOLVED else K_ACC_COARSE[m]
+
+
+def max_hL(rp, fam):
+    return max([a.h for a in rp.attempts if a.status != "rejected"] + [0.0]) * fam.L
 
 
 def acc_bound(m, tolname, ymax, L, T, nacc):
@@ -1228,7 +1268,7 @@ def run_accuracy(desc, obs):
         layout = "tuple"
     fam = make_family(famname, rng, tgen, pts[0], span, layout)
     key = _key(desc, "%s:%s" % (desc["tol"], desc["grid"]))
-    res = _solve_family(obs, key, m, fam, pts, desc["tol"])
+    res = _solve_family(obs, key, m, fam, pts, desc["tol"], via_default=bool(desc.get("via_default")))
     if res is None or not res[2].complete:
         obs.nontrivial = True
         return
@@ -1236,7 +1276,11 @@ def run_accuracy(desc, obs):
     errs, ymax = _errors(fam, pts, ytf)
     base, floor = acc_bound(m, desc["tol"], ymax, fam.L, span, rp.accepted)
     ratio = max(errs) / (base + floor)
-    _track(obs, "acc_ratio", ratio)
+    hL = max_hL(rp, fam)
+    obs.note(hL=hL)
+    _track(obs, "acc_ratio" if hL <= HL_RESOLVED else "acc_ratio_coarse", ratio)
+    obs.count("accuracy_resolved_steps" if hL <= HL_RESOLVED else "accuracy_coarse_steps")
+    K = k_acc(m, hL)
     obs.note(err=max(errs), base=base, steps=rp.accepted, rejected=rp.rejected, L=fam.L, span=span, max_step_err_ratio=rp.max_err_ratio)
     obs.count("accuracy_compared")
     obs.count("grid_%s" % desc["grid"])
@@ -1245,9 +1289,9 @@ def run_accuracy(desc, obs):
         obs.count("cases_with_rejections")
     if isinstance(fam.y0, (tuple, list)):
         obs.count("tuple_state_cases")
-    obs.check(ratio <= K_ACC[m], "accuracy:%s:%s" % (m, desc["tol"]),
-              "global error %.3e exceeds %.3g x (atol+rtol*|y|)(1+LT)sqrt(steps) = %.3e (family %s, %d steps, L*T=%.2f)" % (
-                  max(errs), K_ACC[m], K_ACC[m] * (base + floor), famname, rp.accepted, fam.L * span), grid=desc["grid"])
+    obs.check(ratio <= K, "accuracy:%s:%s" % (m, desc["tol"]),
+              "global error %.3e exceeds %.3g x (atol+rtol*|y|)(1+LT)sqrt(steps) = %.3e (family %s, %d steps, L*T=%.2f, largest h*L=%.2f)" % (
+                  max(errs), K, K * (base + floor), famname, rp.accepted, fam.L * span, hL), grid=desc["grid"])
     # error must not grow when the tolerances shrink by 100
     if desc["tol"] in ("loose", "abs", "default") and (m == "rk45" or desc["tol"] == "loose"):
         tight = {"loose": (1e-8, 1e-5), "abs": (1e-8, 0.0), "default": (1e-10, 1e-7)}[desc["tol"]]
@@ -1258,10 +1302,12 @@ def run_accuracy(desc, obs):
             obs.count("tolerance_pairs")
             if max(errs2) < max(errs):
                 obs.count("tolerance_pairs_improved")
-            _track(obs, "acc_ratio", max(errs2) / (base2 + floor2))
-            obs.check(max(errs2) <= K_ACC[m] * (base2 + floor2), "accuracy:%s:tightened" % m,
+            hL2 = max_hL(res2[2], fam)
+            _track(obs, "acc_ratio" if hL2 <= HL_RESOLVED else "acc_ratio_coarse", max(errs2) / (base2 + floor2))
+            K2 = k_acc(m, hL2)
+            obs.check(max(errs2) <= K2 * (base2 + floor2), "accuracy:%s:tightened" % m,
                       "with 100x tighter tolerances than '%s' the global error is %.3e (was %.3e), bound %.3e" % (
-                          desc["tol"], max(errs2), max(errs), K_ACC[m] * (base2 + floor2)))
+                          desc["tol"], max(errs2), max(errs), K2 * (base2 + floor2)))
     obs.nontrivial = ymax > 0 and rp.accepted >= len(pts) - 1
 
 
@@ -1394,7 +1440,7 @@ def run_meta(desc, obs):
         ret = float(torch.linalg.vector_norm(b[1][-1] - _flat0(fam.y0)))
         if m in ADAPTIVE:
             base, floor = acc_bound(m, tol, ymax, fam.L, span, a[2].accepted + b[2].accepted)
-            lim = 2 * K_ACC[m] * (base + floor)
+            lim = 2 * k_acc(m, max(max_hL(a[2], fam), max_hL(b[2], fam))) * (base + floor)
         else:
             p = ref(m)["order"]
             hmax = max(abs(y - x) for x, y in zip(pts[:-1], pts[1:]))
